@@ -321,11 +321,146 @@ class L3:
         want = COND(mn, r0["flag"], exp["cx"])
         return self.finish(f"{mn} tgt", exp, {}, "JMP(77)" if want else "NEXT")
 
+    # ---- addressing shapes: the operand text is rebuilt from the registers / displacement of the derivation
+    def _operand(self):
+        regs = self.rp.get("regs", [])
+        disp = [g(self.inp, v) for v in self.rp.get("disp", [])]
+        parts = list(regs)
+        r0 = self.regs
+        ea = sum(r0[x] for x in regs)
+        for d in disp:
+            ea += d
+            parts.append(str(d if d < 0 or not regs else d & 0xFFFF if d >= 0 else d))
+        if not regs and disp:
+            parts = [str(disp[0] & 0xFFFF)]
+        ea &= 0xFFFF
+        if self.rp.get("seg"):
+            sr = WORD_NAMES[g(self.inp, "in_sr") % 12]
+            segv = r0[sr]
+            text = f"{sr}:[{','.join(parts)}]"
+            if sr not in ("es", "ds", "ss", "cs"):
+                return None, None, None
+        else:
+            segv = r0["ss"] if "bp" in regs else r0["ds"]
+            text = f"[{','.join(parts)}]"
+        return text, segv, ea
+
     def s_addr(self):
-        return None
+        text, segv, ea = self._operand()
+        if text is None:
+            return None
+        a = phys(segv, ea)
+        self.mem[a] = 0
+        r0 = dict(self.regs)
+        return self.finish(f"mov byte {text},171", dict(r0), {a: 171})
 
     def s_lea(self):
-        return None
+        text, segv, ea = self._operand()
+        if text is None:
+            return None
+        k = g(self.inp, "in_k") % 12
+        if k in (4, 5, 6, 7):
+            k = 0          # the production takes a general word register
+        r0 = dict(self.regs)
+        exp = dict(r0)
+        exp[WORD_NAMES[k]] = ea
+        return self.finish(f"lea {WORD_NAMES[k]},word {text}", exp, {})
+
+    def s_control(self):
+        mn = self.rp["mn"]
+        r0 = dict(self.regs)
+        exp = dict(r0)
+        f = r0["flag"]
+        exp["flag"] = {"stc": f | 1, "clc": f & ~1, "cmc": f ^ 1, "std": f | 0x400, "cld": f & ~0x400, "sti": f | 0x200,
+                       "cli": f & ~0x200, "hlt": f}[mn] & 0xFFFF
+        return self.finish(mn, exp, {}, "HALT" if mn == "hlt" else "NEXT")
+
+    def s_singleton(self):
+        mn = self.rp["mn"]
+        r0 = dict(self.regs)
+        exp, em = dict(r0), {}
+        if mn == "lahf":
+            set8(exp, 1, r0["flag"] & 0xFF)
+        elif mn == "sahf":
+            exp["flag"] = (r0["flag"] & 0xFF00) | (r0["ax"] >> 8)
+        elif mn == "pushf":
+            exp["sp"] = u16(r0["sp"] - 2)
+            b = phys(r0["ss"], exp["sp"])
+            em[b] = r0["flag"] & 0xFF
+            em[(b + 1) % MB] = r0["flag"] >> 8
+        elif mn == "popf":
+            b = phys(r0["ss"], r0["sp"])
+            self.mem[b] = g(self.inp, "in_s0") & 0xFF
+            self.mem[(b + 1) % MB] = g(self.inp, "in_s1") & 0xFF
+            exp["flag"] = self.mem[b] | (self.mem[(b + 1) % MB] << 8)
+            exp["sp"] = u16(r0["sp"] + 2)
+        elif mn == "xlat":
+            a = phys(r0["ds"], u16(r0["bx"] + (r0["ax"] & 0xFF)))
+            self.mem[a] = g(self.inp, "in_s0") & 0xFF
+            set8(exp, 0, self.mem[a])
+        else:
+            return None
+        return self.finish(mn, exp, em)
+
+    def _string_effect(self, mn, w, r0):
+        """reference effect of one string instruction on (regs, mem writes); memory cells come from self.mem"""
+        size = 1 if w == "byte" else 2
+        down = r0["flag"] & 0x400
+        stp = lambda x: u16(x - size) if down else u16(x + size)
+        src, dst = phys(r0["ds"], r0["si"]), phys(r0["es"], r0["di"])
+        rd = lambda a: self.mem.get(a, 0) | ((self.mem.get((a + 1) % MB, 0) << 8) if size == 2 else 0)
+        exp, em = dict(r0), {}
+        if mn == "movs":
+            v = rd(src)
+            em[dst] = v & 0xFF
+            if size == 2:
+                em[(dst + 1) % MB] = v >> 8
+            exp["si"], exp["di"] = stp(r0["si"]), stp(r0["di"])
+        elif mn == "lods":
+            v = rd(src)
+            exp["ax"] = v if size == 2 else (r0["ax"] & 0xFF00) | v
+            exp["si"] = stp(r0["si"])
+        elif mn == "stos":
+            em[dst] = r0["ax"] & 0xFF
+            if size == 2:
+                em[(dst + 1) % MB] = r0["ax"] >> 8
+            exp["di"] = stp(r0["di"])
+        else:
+            a = rd(src) if mn == "cmps" else (r0["ax"] if size == 2 else r0["ax"] & 0xFF)
+            fn = "byte_sub" if size == 1 else "word_sub"
+            f = ask(self.tool, [f"l1b {fn} {r0['flag']} {a} {rd(dst)}"])[0]["expected"]
+            exp["flag"] = f["flag"]
+            if mn == "cmps":
+                exp["si"] = stp(r0["si"])
+            exp["di"] = stp(r0["di"])
+        return exp, em
+
+    def _string_cells(self, r0):
+        src, dst = phys(r0["ds"], r0["si"]), phys(r0["es"], r0["di"])
+        for name, a in (("in_s0", src), ("in_s1", (src + 1) % MB), ("in_d0", dst), ("in_d1", (dst + 1) % MB)):
+            if name in self.inp or a not in self.mem:
+                self.mem.setdefault(a, g(self.inp, name) & 0xFF)
+
+    def s_string_l1(self):
+        r0 = dict(self.regs)
+        self._string_cells(r0)
+        exp, em = self._string_effect(self.rp["mn"], self.rp["w"], r0)
+        return self.finish(f"{self.rp['mn']} {self.rp['w']}", exp, em, "NEXT")
+
+    def s_string(self):
+        prefix, mn, w = self.rp.get("prefix", ""), self.rp["mn"], self.rp["w"]
+        r0 = dict(self.regs)
+        self._string_cells(r0)
+        line = (prefix + " " if prefix else "") + f"{mn} {w}"
+        if prefix and r0["cx"] == 0:
+            return self.finish(line, dict(r0), {}, "NEXT")
+        exp, em = self._string_effect(mn, w, r0)
+        if not prefix:
+            return self.finish(line, exp, em, "NEXT")
+        exp["cx"] = u16(r0["cx"] - 1)
+        zf = bool(exp["flag"] & 0x40)
+        go = True if prefix == "rep" else (zf if prefix == "repz" else not zf)
+        return self.finish(line, exp, em, "REPEAT" if go else "NEXT")
 
 
 def COND(m, f, cx):
